@@ -14,6 +14,8 @@ disk at that instant.
 """
 
 import os
+import threading
+import time
 
 from hypothesis import strategies as st
 from hypothesis.stateful import rule
@@ -41,7 +43,11 @@ RULE = (
     "are saved once per history: most valid, some unsaved / other algorithm / newer version / "
     "deleted), hash_file(state=), build() of a file or the directory on a store carrying the state, "
     "_get_hashes, build_entries(compute_hash=True), index md5() / update(new, old) / md5() of a kept "
-    "index, mutate_during_batch (_get_hashes / build(dir) / build_entries through a harness-owned "
+    "index, q_pool_hashes (_get_hashes with jobs 2..8 and large_file_threshold 0..8 over >= 2 "
+    "touched live files, or build() of a directory of three > 1 MiB files, with a wrapper around "
+    "build.hash_file that holds one pooled call back until another finished, so the unordered pool "
+    "completes out of submission order; returned hashes and all later lookups judged), "
+    "mutate_during_batch (_get_hashes / build(dir) / build_entries through a harness-owned "
     "LocalFileSystem subclass that rewrites an already-read file of the batch when a later one is "
     "opened; only later lookups of that file are judged), "
     "planted entries (version HASH_VERSION+k, legacy entries without version), the same "
@@ -51,7 +57,8 @@ RULE = (
     "get_many == element-wise get (order, meta, hash); newer-version entries, deleted files and "
     "non-local filesystems are misses. Non-trivial = a query answered from the cache for a path "
     "mutated earlier in the history, or a batch >= 1000, or an update() after a mutation, or a "
-    "mutation that fired during a batch call; distinct "
+    "mutation that fired during a batch call, or >= 2 files with distinct contents hashed in the "
+    "pool; distinct "
     "= SHA-1 of the trace JSON."
 )
 ASSUMPTIONS = [
@@ -61,6 +68,8 @@ ASSUMPTIONS = [
     "no mutation happens between a library call's stat of a file and the end of its read of that "
     "file; a mutation during a batch call hits only a file that call has finished reading, and the "
     "hashes returned by that very call are not judged for it",
+    "the hold-back inside the wrapper around build.hash_file only shapes the pool's completion "
+    "order; verdicts do not depend on timing",
     "hashlib and vd.ref.ref_hash (md5-dos2unix sniffing rule) are the trusted reference",
 ]
 
@@ -130,6 +139,45 @@ class SpyState(State):
             yield path, meta, hi
 
 
+class SlowFirst:
+    """Schedule shaping for the library's hashing pool: wraps build.hash_file so that, off the main
+    thread, the call for one drawn path does not start before some other pooled call has finished
+    (bounded wait) - the unordered pool then really completes out of submission order. The verdict
+    never depends on the timing: on correct code every order gives the same answer."""
+
+    def __init__(self, slow_path):
+        from dvc_data.hashfile import build as B
+
+        self.B = B
+        self.slow = slow_path
+        self.orig = B.hash_file
+        self.main = threading.get_ident()
+        self.other_done = threading.Event()
+        self.pool_calls = 0
+        self.lock = threading.Lock()
+
+    def __enter__(self):
+        def wrapper(path, *a, **kw):
+            off = threading.get_ident() != self.main
+            if off:
+                with self.lock:
+                    self.pool_calls += 1
+                if path == self.slow:
+                    self.other_done.wait(2.0)
+                    time.sleep(0.003)
+            try:
+                return self.orig(path, *a, **kw)
+            finally:
+                if off and path != self.slow:
+                    self.other_done.set()
+
+        self.B.hash_file = wrapper
+        return self
+
+    def __exit__(self, *exc):
+        self.B.hash_file = self.orig
+
+
 class WriterFS(LocalFileSystem):
     """Harness-owned local filesystem: when the library opens a file of a batch for hashing and an
     earlier file of the same batch (same directory) has already been read and closed, another
@@ -179,6 +227,7 @@ class C13Machine(TraceMachine):
         self.old = None
         self.old_epoch = 0
         self.pad = None
+        self.big_k = 0
         self.labels = set()
         self.cnt = {"queries": 0, "hashes_checked": 0, "cache_hits": 0, "hits_after_mutation": 0,
                     "carried": 0, "clock_resteps": 0, "histories": 1}
@@ -777,6 +826,80 @@ class C13Machine(TraceMachine):
         self.labels.add(f"mid-batch:{route}:{how}")
         self.nt.add("mutation-during-batch")
         self.probe(wfs.victim, probe, palgo)
+
+    @rule(algo=algo_s, jobs=st.integers(2, 8), threshold=st.integers(0, 8), rot=st.integers(0, 4),
+          slow=st.sampled_from([0, 0, 0, 1, 2]), stir=st.sampled_from([True, True, True, False]),
+          big=st.sampled_from([False, False, False, True]),
+          infos=st.sampled_from(["none", "all"]))
+    @traced
+    def q_pool_hashes(self, algo, jobs, threshold, rot, slow, stir, big, infos):
+        """The parallel (unordered) hashing path: >= 2 files above the large-file threshold, > 1 job,
+        completion order shaped to differ from submission order. Every returned hash and every
+        later state lookup of those (never modified) paths must be the digest of that path's bytes."""
+        from dvc_data.hashfile.build import _get_hashes, build
+
+        name = ALGOS[algo]
+        if big:
+            paths = self.big_files()
+            for q in paths:  # touched since the last run: not a state hit
+                self.big_k += 1
+                ns = T0_NS + 10**12 + self.big_k * 1_000_000
+                os.utime(q, ns=(ns, ns))
+        else:
+            live = self.live_files()
+            if len(live) < 2:
+                return
+            r = rot % len(live)
+            paths = live[r:] + live[:r]
+            if stir:
+                for i, q in enumerate(paths):
+                    before, prev = self.triple(q), os.stat(q).st_mtime_ns
+                    self.after_mutation(q, before, self.clock(q, ["d", 1 + i], prev),
+                                        content_changed=False)
+        large = [q for q in paths if os.path.getsize(q) > (2**20 if big else threshold)]
+        slow_path = large[slow % len(large)] if large else paths[0]
+        self.cnt["queries"] += 1
+        with SlowFirst(slow_path) as shaper:
+            if big:
+                odb = ops.make_odb("local", os.path.join(self.dir, f"odb-local-{name}"),
+                                   state=self.state, hash_name=name)
+                _staging, _meta, obj = build(odb, os.path.dirname(paths[0]), self.fs, name,
+                                             checksum_jobs=jobs)
+                got = {os.path.join(os.path.dirname(paths[0]), *key): hi for key, _m, hi in obj}
+                route = "build(dir,>1MiB)"
+            else:
+                given = {q: self.fs.info(q) for q in paths}
+                res = _get_hashes(list(paths), self.fs, name, given, state=self.state, jobs=jobs,
+                                  large_file_threshold=threshold)
+                got = {q: r_[1] for q, r_ in res.items()}
+                route = "_get_hashes(pool)"
+        self.take_hits(name)
+        if sorted(got) != sorted(paths):
+            self.violate(f"batch-shape:{route}", f"{route} did not answer exactly the paths asked")
+        for q in paths:
+            self.check(route, q, got[q], name)
+        self.labels.add(f"q:{route}:{name}")
+        if shaper.pool_calls >= 2:
+            self.labels.add(f"pool:{route}:files-in-pool>=2")
+            if len({ref.read(q) for q in large}) >= 2:
+                self.labels.add("pool:distinct-contents")
+                self.nt.add("pool-hashing")
+        else:
+            self.labels.add("pool:not-reached")
+        # what the call recorded: every later lookup of these paths
+        self.r_get_many(list(paths), infos)
+        for q in paths:
+            self.r_hash_file(q, name, infos == "all")
+
+    def big_files(self):
+        d = os.path.join(self.dir, "big")
+        if not os.path.isdir(d):
+            os.mkdir(d)
+            for i, nm in enumerate(["big-a", "big-b", "big-c"]):
+                with open(os.path.join(d, nm), "wb") as f:
+                    f.write((b"%d:0123456789abcdefg\n" % i) * (56_000 + 3000 * i))
+            self.labels.add("big-files-created")
+        return [os.path.join(d, nm) for nm in ["big-a", "big-b", "big-c"]]
 
     @rule(slot=slot_s, kind=st.sampled_from(["newer", "newer", "legacy"]), bump=st.sampled_from([1, 1, 2, 7]))
     @traced
